@@ -95,8 +95,8 @@ EXTRA_MODULES["C17"] = ["CachedProofs.LayerB.NoPanic", "CachedProofs.LayerB.Clos
 EXTRA_MODULES["C16"] = ["CachedProofs.LayerB.StatsTheorems"]                          # C16 at action granularity
 for _pid, _mods in {"C02": ["CachedProofs.LayerB.History"],                          # regularity of reads over histories (call begin / return events)
                     "C03": ["CachedProofs.LayerB.IndexStep", "CachedProofs.LayerB.Retained"], "C10": ["CachedProofs.LayerB.IndexStep", "CachedProofs.Extra.Ticks", "CachedProofs.Extra.Small"],
-                    "C11": ["CachedProofs.LayerB.PutDelete"], "C13": ["CachedProofs.Extra.Progress", "CachedProofs.LayerB.NoDeadlock"], "C12": ["CachedProofs.Extra.Progress", "CachedProofs.LayerB.AckEffect"], "C04": ["CachedProofs.LayerB.AckEffect"], "C08": ["CachedProofs.LayerB.AckEffect"],   # the worker can always take its next step; the queue drains
-                    "C18": ["CachedProofs.LayerB.NoDeadlock"],                        # no deadlock at action granularity: some internal action is always enabled; wait chains ≤ 3, acyclic
+                    "C11": ["CachedProofs.LayerB.PutDelete"], "C13": ["CachedProofs.Extra.Progress", "CachedProofs.LayerB.NoDeadlock", "CachedProofs.LayerB.Terminates"], "C12": ["CachedProofs.Extra.Progress", "CachedProofs.LayerB.AckEffect", "CachedProofs.LayerB.Terminates"], "C04": ["CachedProofs.LayerB.AckEffect"], "C08": ["CachedProofs.LayerB.AckEffect"],   # the worker can always take its next step; the queue drains
+                    "C18": ["CachedProofs.LayerB.NoDeadlock", "CachedProofs.LayerB.Terminates"],                        # no deadlock at action granularity: some internal action is always enabled; wait chains ≤ 3, acyclic
                     "C15": ["CachedProofs.Extra.Small"], "C16": ["CachedProofs.Extra.Small"], "C06": ["CachedProofs.Extra.Small"]}.items():
     EXTRA_MODULES[_pid] = EXTRA_MODULES.get(_pid, []) + _mods
 
